@@ -68,6 +68,8 @@ package retry
 //@   ensures step_kind: result == nil ==> b.backoffSleepMS[cfg.name] == old(b.backoffSleepMS[cfg.name]) + (b.totalSleep - old(b.totalSleep)) && b.backoffTimes[cfg.name] == old(b.backoffTimes[cfg.name]) + 1
 //@   ensures noop: old(b.noop) ==> b.totalSleep == old(b.totalSleep) && b.excludedSleep == old(b.excludedSleep)
 //@   ensures maxkept: b.maxSleep == old(b.maxSleep)
+// a back-off call that sees its context ended (selects its Done channel) before sleeping returns an error and accounts no sleep
+//@   ensures cancelled: ctxDone(b.ctx) && !old(ctxDone(b.ctx)) ==> result != nil && b.totalSleep == old(b.totalSleep) && b.excludedSleep == old(b.excludedSleep)
 
 // longestSleepCfg: the kind (among those not excluded from the budget) that has slept longest so far, provided it is one
 // of the kinds recorded in b.configs.
